@@ -646,6 +646,7 @@ func (vc *VC) makeInterface(st *State, x Val, from, to types.Type) *Term {
 			unsup("MakeInterface of %T", x)
 		}
 	}
+	vc.obligeTypeInv(st, xt, "typeinv.box", "value converted to an interface satisfies its type invariant", token.NoPos)
 	tag := vc.typeTag(from)
 	box, unbox := vc.boxFns(from)
 	b := "(" + box + " " + xt.S + ")"
@@ -690,10 +691,16 @@ func (vc *VC) typeAssert(st *State, x *Term, at types.Type, commaOk bool, pos to
 		// zero value when not ok
 		v := vc.define("ta", &Term{ite(okc, val.S, vc.zero(at).S), val.Sort, at})
 		vc.assumeUnder(okc, vc.typingFact(val))
+		if vc.hasNestedInv(at, 0) {
+			tmp := st.clone()
+			tmp.reach = and(st.reach, okc)
+			vc.assumeTypeInv(tmp, val)
+		}
 		return Tuple{v, &Term{okc, SBool, types.Typ[types.Bool]}}
 	}
 	vc.obligeAndAssume(st, "typeassert", okc, "type assertion to "+at.String()+" succeeds", pos)
 	vc.assume(vc.typingFact(val))
+	vc.assumeTypeInv(st, val)
 	return val
 }
 
